@@ -1,13 +1,21 @@
 _D = "datum = every NUL-free byte string of %s bytes (fully symbolic)"
 _e = lambda n, b, r, **kw: dict(name=n, bounds=b, reach=list(r), **kw)
+_KNOWN = [
+    dict(name="c34_known_username_space", known=True, reach=[], max_samples=0, sample_every=0,
+         bounds="KNOWN FINDING C34-username-space only: Format::QuoteUrlEncodeUsername on every NUL-free user name of 1..2 bytes that contains a space; its violation is listed in known_findings.json and printed as KNOWN-FINDING"),
+    dict(name="c34_known_shell_whitespace", known=True, reach=[], max_samples=0, sample_every=0,
+         bounds="KNOWN FINDING C34-shell-quote-whitespace only: strwordquote on every NUL-free datum of 1..2 bytes that contains TAB/VT/FF and no space; its violations are listed in known_findings.json and printed as KNOWN-FINDING"),
+]
 def _entries(nf, nr):
+    return _main(nf, nr) + _KNOWN
+def _main(nf, nr):
     return [
         _e("c34_mimeblob", "Format::QuoteMimeBlob: " + _D % ("0..%d" % (nf - 1)) + "; also NULL", ("done",)),
         _e("c34_mimeblob_printable", "Format::QuoteMimeBlob: datum = every string of 0..%d printable ASCII bytes 0x20..0x7e (symbolic)" % nf, ("done",)),
-        _e("c34_username", "Format::QuoteUrlEncodeUsername: " + _D % ("0..%d" % (nf - 2)) + " without a space (candidate finding, see assumptions); also NULL", ("name", "none")),
+        _e("c34_username", "Format::QuoteUrlEncodeUsername: " + _D % ("0..%d" % (nf - 2)) + " without a space (known finding, see assumptions); also NULL", ("name", "none")),
         _e("c34_quoted_string", "log_quoted_string into a buffer of exactly 2*len+1 bytes: " + _D % ("0..%d" % nf), ("done",)),
         _e("c34_url", "rfc1738_escape (URL quoting) and rfc1738_escape_unescaped (default quoting): " + _D % ("0..%d" % (nf - 2)), ("done",)),
-        _e("c34_shell", "strwordquote: " + _D % ("0..%d" % nf) + " except strings with TAB/VT/FF and no space (candidate finding, see assumptions)", ("quoted", "bare")),
+        _e("c34_shell", "strwordquote: " + _D % ("0..%d" % nf) + " except strings with TAB/VT/FF and no space (known finding, see assumptions)", ("quoted", "bare")),
         _e("c34_record_default_quotes", "records of logformats 'x %>h y', 'x \"%>h\" y', 'x \"%\">h\" y' built by Format::parse + Format::assemble; request header block " + _D % ("1..%d (default quoting) / 1..%d (quoted-string)" % (nf - 2, nr)), ("default", "quotes")),
         _e("c34_record_mime", "records of logformats 'x [%>h] y', 'x [%[>h] y'; " + _D % ("1..%d" % (nr - 1)), ("mime",)),
         _e("c34_record_url_shell", "records of logformats 'x %#>h y', 'x %/>h y', 'x \"%#>h\" y'; " + _D % ("1..%d (URL) / 1..%d (shell)" % (nf - 2, nr)) + " (shell: same exclusion as c34_shell)", ("url", "shell")),
@@ -28,8 +36,8 @@ SPEC = dict(
     timeout=dict(quick=300, thorough=1800),
     stubs=["AccessLogEntry built in zeroed raw memory without its constructor chain; only headers.request is set (the only member %>h reads besides icap.reqMethod == methodNone); the RefCount handed to assemble() is fabricated from the raw pointer (no lock/unlock/destruction)",
            "vsnprintf model for %%%02X and %*.*s", "memAllocBuf rounding as mem/old_api.cc", "compat/xstring.cc is the real file with its xstrdup renamed away (xstrdup is an engine model)", "debugs() disabled"],
-    assumptions=["candidate finding (excluded by vf_assume in c34_username): QuoteUrlEncodeUsername leaves a space raw although the user name is a bare space-delimited field of the built-in log formats",
-                 "candidate finding (excluded by vf_assume in c34_shell and the shell layout of c34_record_url_shell): strwordquote quotes a word only when it contains a space and never escapes TAB/VT/FF, so a datum with TAB/VT/FF and no space is emitted as a bare word containing raw whitespace",
+    assumptions=["known finding C34-username-space (examined only by entry c34_known_username_space, excluded from c34_username by vf_assume): QuoteUrlEncodeUsername leaves a space raw although the user name is a bare space-delimited field of the built-in log formats; excluded class: user names containing a space",
+                 "known finding C34-shell-quote-whitespace (examined only by entry c34_known_shell_whitespace, excluded from c34_shell and the %/ layout of c34_record_url_shell by vf_assume): strwordquote quotes a word only when it contains a space and never escapes TAB/VT/FF; excluded class: data with TAB/VT/FF and no space",
                  "shell words are read with POSIX-like rules (a backslash escapes the next character inside and outside double quotes; \\n and \\r denote LF and CR)"],
     outside="data longer than the bound or containing NUL (logged strings are C strings); %' (raw) quoting; width/precision limits on a field; %codes other than %>h; icap/adaptation contexts",
 )
